@@ -131,7 +131,7 @@ var specs = map[string]*propSpec{
 		ID: "C08",
 		Rule: "case idx -> abstract program with FOR/ROF blocks in sequence and nested (depth <= 3), counts 0..6 as literals or expressions over EQUs defined earlier, counters used inside operand arithmetic of inner and outer bodies, counter-less blocks, optional block labels referenced from inside the block " +
 			"(1/6 of the programs also from outside: known-finding stratum), up to 40 block expansions in total (strata 0..12 and 13..40), both dialects, random layout. Three-way comparison: CompileWarrior(program) vs CompileWarrior(manual unrolling done on the abstract program by the harness) vs by-construction meaning. " +
-			"The only accepted failures are exactly the two known findings (signature = input predicate + exact error text); pinned witnesses of both and the two README examples run as cases 0..3 of every invocation. " +
+			"The only accepted failures are exactly the four known findings (signature = input predicate + exact error text); pinned witnesses of the four known findings and the two README examples run as cases 0..5 of every invocation. " +
 			"non-trivial = >= 2 blocks, nesting, or a counter inside arithmetic; distinct by block-tree shape",
 		Assumptions: append([]string{
 			"FOR counts only see EQUs written before the block (gmars gathers EQUs up to the first remaining FOR; forward EQUs in counts are outside the quantifier); labels inside bodies and block labels on blocks that emit nothing are not generated"}, commonAssumptions...),
@@ -183,7 +183,7 @@ var specs = map[string]*propSpec{
 	},
 	"C16": {
 		ID: "C16",
-		Rule: "case idx -> warrior (first instruction ENUMERATES all forms legal in the dialect; fields across [0,M) with 0, M/2, M/2+1, M-1 forced on half of the cases; every entry point; M in {3,7,80,8000,8192,2^20}; ICWS88, ICWS94 and NOP94 simulators) obtained through the real assembler, the real loader, or hand-made WarriorData; " +
+		Rule: "case idx -> warrior (first instruction ENUMERATES all forms legal in the dialect; fields across [0,M) with 0, M/2, M/2+1, M-1 forced on half of the cases; every entry point; M in {3,7,80,257,8000,8191,8192} and occasionally 2^20; ICWS88, ICWS94 and NOP94 simulators) obtained through the real assembler, the real loader, or hand-made WarriorData; " +
 			"AddWarrior + LoadCode() gives the listing, which an independent reader of the pMARS listing conventions (START label, ORG START / END START, signed fields in (-M,M), upper-case OP.MOD in '94, no modifier in '88 with the modifier implied by the '88 table) must read back to exactly the warrior, fields compared modulo M. " +
 			"non-trivial = entry point != 0 or a field > M/2 (printed negative); distinct by (dialect, form of the first instruction)",
 		Assumptions: commonAssumptions,
